@@ -47,33 +47,34 @@ pub fn record(args: &Args) {
 	let mut lines = vec![];
 	for d in 0..domains {
 		let mut vals: Vec<Value> = vec![];
+		let nums = ["0", "-0", "0.0", "-0.0", "0e0", "1", "-1", "2", "9", "10", "-10", "1e1", "1E1", "10.0", "1.0e1", "2.5", "100", "99", "1e2",
+			"9007199254740992", "9007199254740993", "9223372036854775807", "9223372036854775808", "-9223372036854775808", "-9223372036854775809",
+			"18446744073709551615", "18446744073709551616", "1e400", "-1e400", "1e-400", "0.1", "0.10", "1.5", "15e-1"];
+		let strs = ["", "a", "b", "ab", "B", "\u{e9}", "\u{ffff}", "\u{10000}", "\u{e000}", "a\u{0}", "aa"];
+		let num = |n: &str| Value::Number(json_syntax::NumberBuf::new(n.as_bytes().into()).unwrap());
 		if d == 3 || d == 7 {
 			// a domain of numbers whose lexical, numeric and length orders all disagree, equal values under different
-			// spellings, 64-bit and double boundaries - bare, inside arrays and as member values; and of strings / keys
-			// whose byte, code-point, UTF-16 and length orders disagree
-			let nums = ["0", "-0", "0.0", "-0.0", "0e0", "1", "-1", "2", "9", "10", "-10", "1e1", "1E1", "10.0", "1.0e1", "2.5", "100", "99", "1e2",
-				"9007199254740992", "9007199254740993", "9223372036854775807", "9223372036854775808", "-9223372036854775808", "-9223372036854775809",
-				"18446744073709551615", "18446744073709551616", "1e400", "-1e400", "1e-400", "0.1", "0.10", "1.5", "15e-1"];
-			let strs = ["", "a", "b", "ab", "B", "\u{e9}", "\u{ffff}", "\u{10000}", "\u{e000}", "a\u{0}", "aa"];
-			for (i, n) in nums.iter().enumerate() {
-				let v = Value::Number(json_syntax::NumberBuf::new(n.as_bytes().into()).unwrap());
-				vals.push(match (d + i) % 4 {
-					0 | 1 => v,
-					2 => Value::Array(vec![v]),
-					_ => Value::Object(vec![json_syntax::object::Entry::new("n".into(), v)].into_iter().collect()),
-				});
-			}
-			for s in strs.iter() {
-				// as a string, as a key (alone, and after a common first entry), inside an array
-				vals.push(Value::String((*s).into()));
-				vals.push(Value::Object(vec![json_syntax::object::Entry::new((*s).into(), Value::Null)].into_iter().collect()));
-				if s.len() >= 3 {
-					vals.push(Value::Object(vec![json_syntax::object::Entry::new("a".into(), Value::Null), json_syntax::object::Entry::new((*s).into(), Value::Boolean(true))].into_iter().collect()));
-					vals.push(Value::Array(vec![Value::String((*s).into()), Value::Null]));
-				}
+			// spellings, 64-bit and double boundaries: every one bare AND as the value of the same member (all pairs of
+			// the same shape are compared)
+			for n in nums.iter() {
+				vals.push(num(n));
+				vals.push(Value::Object(vec![json_syntax::object::Entry::new("n".into(), num(n))].into_iter().collect()));
 			}
 			rng.shuffle(&mut vals);
-			vals.truncate(size.max(70));
+		}
+		if d == 2 || d == 6 {
+			// strings / keys whose byte, code-point, UTF-16 and length orders disagree: as a string, as a key (alone and
+			// after a common first entry), inside an array; plus a few numbers inside arrays
+			for s in strs.iter() {
+				vals.push(Value::String((*s).into()));
+				vals.push(Value::Object(vec![json_syntax::object::Entry::new((*s).into(), Value::Null)].into_iter().collect()));
+				vals.push(Value::Object(vec![json_syntax::object::Entry::new("a".into(), Value::Null), json_syntax::object::Entry::new((*s).into(), Value::Boolean(true))].into_iter().collect()));
+				vals.push(Value::Array(vec![Value::String((*s).into()), Value::Null]));
+			}
+			for n in ["9", "10", "1e1", "-0", "0", "2.5"] {
+				vals.push(Value::Array(vec![num(n)]));
+			}
+			rng.shuffle(&mut vals);
 		}
 		while vals.len() < size {
 			let base = if d % 2 == 0 { Value::Object(g.object(&mut rng, 1)) } else { g.value(&mut rng, 2) };
@@ -87,7 +88,7 @@ pub fn record(args: &Args) {
 		}
 		// some of them nested under arrays (ordering of containers is lexicographic on children)
 		for i in 0..vals.len() {
-			if rng.chance(1, 5) {
+			if d % 4 < 2 && rng.chance(1, 5) {
 				vals[i] = Value::Array(vec![vals[i].clone()]);
 			}
 		}
